@@ -74,8 +74,8 @@ def is_helper(d, known):
         return False
     if d["short"].startswith("operator") or d["short"].startswith("~"):
         return False
-    if d["kind"] == "method" and d.get("access", 0) not in (1, 2):
-        return False
+    if d["kind"] == "method" and d.get("access", 0) not in (1, 2) and not d["file"].endswith(".cpp"):
+        return False      # public member of a class declared in a header: callable by anyone, analysed stand-alone
     if d["kind"] == "func" and not d["file"].endswith(".cpp"):
         return False
     if len(d["nodes"]) > MAX_NODES:
@@ -88,18 +88,52 @@ def is_helper(d, known):
     return True
 
 
-def _call_on_this(F, c):
+def _call_object(F, c):
+    """'this' for a call on this / a static or free call; the node id of a pure object expression for `obj.helper()`; else None"""
     n = F["nodes"][c]
     if n["k"] == "CallExpr":
-        return True
+        return "this"
     if n["k"] != "CXXMemberCallExpr" or not n["c"]:
-        return False
+        return None
     me = _strip(F["nodes"], n["c"][0])
     m = F["nodes"][me]
     if m["k"] != "MemberExpr" or not m["c"]:
-        return False
+        return None
     o = _strip(F["nodes"], m["c"][0])
-    return F["nodes"][o]["k"] == "CXXThisExpr"
+    if F["nodes"][o]["k"] == "CXXThisExpr":
+        return "this"
+    if not m.get("arrow") and pure_path(F["nodes"], o):
+        return o
+    return None
+
+
+def _call_on_this(F, c):
+    return _call_object(F, c) is not None
+
+
+def clone_subtree(nodes, root):
+    """deep copy of the expression subtree rooted at `root` (appended to nodes); returns the new root id"""
+    n = copy.deepcopy(nodes[root])
+    nid = len(nodes)
+    n["i"] = nid
+    nodes.append(n)
+    for (cont, key) in _node_id_fields(n):
+        if cont[key] >= 0:
+            cont[key] = clone_subtree(nodes, cont[key])
+    return nid
+
+
+PURE = {"DeclRefExpr", "MemberExpr", "CXXThisExpr", "ImplicitCastExpr", "ParenExpr", "IntegerLiteral", "CXXBoolLiteralExpr",
+        "CharacterLiteral", "CXXNullPtrLiteralExpr", "GNUNullExpr", "CStyleCastExpr", "CXXStaticCastExpr"}
+
+
+def pure_path(nodes, i):
+    """an expression without side effects whose value designates the same object whenever it is evaluated in the helper:
+    variable / member paths, `*p`, `&x`, literals"""
+    n = nodes[i]
+    if n["k"] in PURE or (n["k"] == "UnaryOperator" and n.get("op") in ("*", "&")):
+        return all(pure_path(nodes, c) for c in n["c"] if c >= 0)
+    return False
 
 
 def _els(b):
@@ -119,7 +153,9 @@ def splice(F, c, H):
     nodes = F["nodes"]
     cfg = F["cfg"]
     blocks = {b["id"]: b for b in cfg["blocks"]}
-    # locate the call element
+    obj = _call_object(F, c)
+    if obj is None:
+        return False
     loc = None
     for b in cfg["blocks"]:
         for k, e in enumerate(b["el"]):
@@ -134,7 +170,7 @@ def splice(F, c, H):
             v = cont[key]
             if v >= 0:
                 parent.setdefault(v, n["i"])
-    # how is the value used?
+    # ---- how is the value used?
     p = parent.get(c)
     neg = False
     x = c
@@ -144,16 +180,14 @@ def splice(F, c, H):
         x = p
         p = parent.get(p)
     cond = B.get("cond")
-    as_cond = isinstance(cond, int) and (cond == x or _strip(nodes, cond) == c or cond == c) and len(B.get("succ", [])) == 2
-    is_stmt = p is None or nodes[p]["k"] in ("CompoundStmt", "IfStmt", "ForStmt", "WhileStmt", "DoStmt", "LabelStmt", "CaseStmt", "DefaultStmt", "SwitchStmt")
-    if is_stmt and p is not None and nodes[p]["k"] in ("IfStmt", "WhileStmt", "DoStmt", "ForStmt") and as_cond:
-        is_stmt = False
-    if not as_cond and not is_stmt:
-        return False
-    if not as_cond and H.get("ret") not in ("void",):
-        # value discarded: fine
-        pass
+    as_cond = isinstance(cond, int) and (cond == x or cond == c or _strip(nodes, cond) == c or
+                                         (nodes[_strip(nodes, cond)]["k"] == "UnaryOperator" and x == _strip(nodes, cond))) and len(B.get("succ", [])) == 2
+    STMT = ("CompoundStmt", "IfStmt", "ForStmt", "WhileStmt", "DoStmt", "LabelStmt", "CaseStmt", "DefaultStmt", "SwitchStmt")
+    is_stmt = (p is None or nodes[p]["k"] in STMT) and not as_cond
+    as_value = not as_cond and not is_stmt and H.get("ret") != "void"
     if as_cond and H.get("ret") not in ("bool", "_Bool"):
+        as_cond, as_value = False, True
+    if not (as_cond or is_stmt or as_value):
         return False
     # ---- copy the helper's nodes
     off = len(nodes)
@@ -166,21 +200,61 @@ def splice(F, c, H):
         if n["k"] == "DeclRefExpr" and n.get("ref", {}).get("dk") == "parm":
             n["ref"]["dk"] = "local"
         n["inl"] = H["sig"]
+    # every splice gets its own identities for the helper's parameters and locals (a helper may be spliced several times)
+    own = set(str(pr["id"]) for pr in H["params"])
+    for n in hn:
+        for d_ in n.get("decls", []) or []:
+            own.add(str(d_["id"]))
+    ren = lambda i_: "%s@%d" % (i_, off) if str(i_) in own else i_
+    hparams = [dict(pr, id=ren(pr["id"])) for pr in H["params"]]
+    for n in hn:
+        for d_ in n.get("decls", []) or []:
+            d_["id"] = ren(d_["id"])
+        if n["k"] == "DeclRefExpr" and "ref" in n:
+            n["ref"]["id"] = ren(n["ref"]["id"])
     nodes.extend(hn)
-    # ---- parameters become locals initialised with the arguments
+    hparent = {}
+    for n in hn:
+        for (cont, key) in _node_id_fields(n):
+            if cont[key] >= 0:
+                hparent[cont[key]] = n["i"]
+    # ---- `this` of the helper is the object of the call
+    if obj != "this":
+        for n in hn:
+            if n["k"] != "CXXThisExpr":
+                continue
+            pp = hparent.get(n["i"])
+            while pp is not None and nodes[pp]["k"] in TRANSPARENT:
+                pp = hparent.get(pp)
+            if pp is not None and nodes[pp]["k"] == "MemberExpr" and nodes[pp].get("arrow"):
+                nodes[pp]["arrow"] = False
+                nodes[pp]["c"] = [clone_subtree(nodes, obj)]
+            else:
+                cl = clone_subtree(nodes, obj)
+                n.clear()
+                n.update({"i": n.get("i", 0), "k": "UnaryOperator", "op": "&", "c": [cl], "inl": H["sig"]})
+        for j, n in enumerate(hn):
+            n["i"] = off + j          # n.clear() above dropped the id
+    # ---- parameters: reference parameters bound to a pure path are substituted, the others become locals initialised at the call
     call = nodes[c]
     args = call["c"][1:]
     pre_els = []
-    for j, prm in enumerate(H["params"]):
+    for j, prm in enumerate(hparams):
         if j >= len(args):
             break
+        a = args[j]
+        if prm["t"].rstrip().endswith("&") and pure_path(nodes, a):
+            for n in hn:
+                if n["k"] == "DeclRefExpr" and n.get("ref", {}).get("id") == prm["id"]:
+                    cl = clone_subtree(nodes, a)
+                    i0 = n["i"]
+                    n.clear()
+                    n.update({"i": i0, "k": "ParenExpr", "c": [cl], "inl": H["sig"]})
+            continue
         nid = len(nodes)
-        nodes.append({"i": nid, "k": "DeclStmt", "c": [args[j]], "l": call.get("l"), "inl": H["sig"],
-                      "decls": [{"id": prm["id"], "n": prm["n"], "t": prm["t"], "init": args[j]}]})
+        nodes.append({"i": nid, "k": "DeclStmt", "c": [a], "l": call.get("l"), "inl": H["sig"],
+                      "decls": [{"id": prm["id"], "n": prm["n"], "t": prm["t"], "init": a}]})
         pre_els.append(nid)
-    call["k"] = "InlinedCall"
-    call.pop("callee", None)
-    call.pop("csig", None)
     # ---- copy the helper's blocks
     boff = max(blocks) + 1
     hb = copy.deepcopy(H["cfg"]["blocks"])
@@ -188,7 +262,7 @@ def splice(F, c, H):
     ret_blocks = []
     for b in hb:
         b["id"] += boff
-        b["succ"] = [None if s is None else s + boff for s in b["succ"]]
+        b["succ"] = [None if s_ is None else s_ + boff for s_ in b["succ"]]
         newel = []
         for e in b["el"]:
             if isinstance(e, int):
@@ -198,6 +272,8 @@ def splice(F, c, H):
                 for kk in ("s", "e"):
                     if isinstance(e.get(kk), int) and e[kk] >= 0:
                         e[kk] += off
+                if "var" in e:
+                    e["var"] = ren(e["var"])
                 newel.append(e)
         b["el"] = newel
         for kk in ("cond", "term", "label"):
@@ -210,6 +286,12 @@ def splice(F, c, H):
             ret_blocks.append((b, rets[-1]))
     post_els = B["el"][k + 1:]
     B_el_pre = B["el"][:k] + pre_els
+
+    def drop_term(b, r):
+        if b.get("term") == r:
+            b.pop("term", None)
+            b.pop("tk", None)
+
     if as_cond:
         t_succ, f_succ = B["succ"][0], B["succ"][1]
         if neg:
@@ -217,12 +299,10 @@ def splice(F, c, H):
         for b, r in ret_blocks:
             rn = nodes[r]
             val = rn["c"][0] if rn["c"] else None
-            rn["k"] = "InlinedReturn"
-            if b.get("term") == r:
-                b.pop("term", None)
-                b.pop("tk", None)
             if val is None:
                 return False
+            rn["k"] = "InlinedReturn"
+            drop_term(b, r)
             v = _strip(nodes, val)
             cv = nodes[v].get("cv", nodes[v].get("v") if nodes[v]["k"] in ("CXXBoolLiteralExpr", "IntegerLiteral") else None)
             if cv is not None:
@@ -235,22 +315,48 @@ def splice(F, c, H):
                 b["term"] = r
         for b in hb:
             if b["id"] == hexit:
-                b["succ"] = []      # unreachable now
+                b["succ"] = []
         B["el"] = B_el_pre
         B["succ"] = [hentry]
         for kk in ("cond", "term", "tk", "cond_full"):
             B.pop(kk, None)
         cfg["blocks"].extend(hb)
     else:
-        for b, r in ret_blocks:
-            nodes[r]["k"] = "InlinedReturn"
-            if b.get("term") == r:
-                b.pop("term", None)
-                b.pop("tk", None)
-        # continuation block
+        if as_value:
+            # the returned value travels in a synthetic local; with a single `return e` it is declared there (and expands like any
+            # single-definition local), otherwise every return assigns it
+            rid = "inl-ret-%d" % off
+            rname = "%s$ret" % H["short"]
+            rt = H.get("ret", "int")
+            single = len(ret_blocks) == 1
+            for b, r in ret_blocks:
+                rn = nodes[r]
+                val = rn["c"][0] if rn["c"] else None
+                if val is None:
+                    return False
+                if single:
+                    rn.clear()
+                    rn.update({"i": r, "k": "DeclStmt", "c": [val], "inl": H["sig"], "decls": [{"id": rid, "n": rname, "t": rt, "init": val}]})
+                else:
+                    lid = len(nodes)
+                    nodes.append({"i": lid, "k": "DeclRefExpr", "c": [], "lv": True, "t": rt, "inl": H["sig"],
+                                  "ref": {"dk": "local", "id": rid, "n": rname, "t": rt}})
+                    rn.clear()
+                    rn.update({"i": r, "k": "BinaryOperator", "op": "=", "c": [lid, val], "t": rt, "inl": H["sig"]})
+                if r not in [e for e in b["el"] if isinstance(e, int)]:
+                    b["el"].append(r)
+                drop_term(b, r)
+            l0 = call.get("l")
+            call.clear()
+            call.update({"i": c, "k": "DeclRefExpr", "c": [], "t": rt, "l": l0, "inl": H["sig"],
+                         "ref": {"dk": "local", "id": rid, "n": rname, "t": rt}})
+        else:
+            for b, r in ret_blocks:
+                nodes[r]["k"] = "InlinedReturn"
+                drop_term(b, r)
         pid = boff + len(hb) + 1
         post = {"id": pid, "el": post_els, "succ": B["succ"]}
-        for kk in ("cond", "term", "tk", "noreturn"):
+        for kk in ("cond", "term", "tk", "noreturn", "cond_full"):
             if kk in B:
                 post[kk] = B.pop(kk)
         B["el"] = B_el_pre
@@ -262,6 +368,10 @@ def splice(F, c, H):
         cfg["blocks"].append(post)
         if cfg["exit"] == B["id"]:
             cfg["exit"] = pid
+    if not as_value:
+        call["k"] = "InlinedCall"
+        call.pop("callee", None)
+        call.pop("csig", None)
     return True
 
 
